@@ -28,6 +28,20 @@ VIEW = {
 }
 
 
+# the same six rows as a NETWORK of three single-branch cells (2, 1 and 3 compartments): the specification speaks about rows,
+# views and sharing groups only, so every history can be replayed on either container (model["container"])
+NET_SHAPES = [[2], [1], [3]]
+VIEW_NET = {
+    "all": lambda n: n,
+    "b0": lambda n: n.cell(0),
+    "b01": lambda n: n.cell([0, 1]),
+    "b12": lambda n: n.cell([1, 2]),
+    "c0": lambda n: n.cell("all").branch(0).comp(0),
+    "mid": lambda n: n.select(nodes=[1, 2, 3]),
+    "last": lambda n: n.cell(2).branch(0).comp(2),
+}
+
+
 def stim_amp(j, k):
     return 10 * j + k
 
@@ -41,7 +55,14 @@ class Ctx:
         self.model = model
         self.T = model["T"]
         self.nin = nin
-        self.cell = probes.build_cell(CELL_SHAPE, model["K"]) if cell is None else cell
+        self.container = model.get("container", "cell")
+        if cell is not None:
+            self.cell = cell
+        elif self.container == "network":
+            self.cell = probes.build_net(NET_SHAPES, model["K"])
+            self.cell.set("v", 0.0)
+        else:
+            self.cell = probes.build_cell(CELL_SHAPE, model["K"])
         self.rows_of = {vn: sorted(v["rows"]) for vn, v in model["views"].items()}
 
     def freeze(self):
@@ -56,7 +77,7 @@ class Ctx:
         return Ctx(model, pickle.loads(frozen[0]), frozen[1])
 
     def view(self, vn):
-        v = VIEW[vn](self.cell)
+        v = (VIEW_NET if self.container == "network" else VIEW)[vn](self.cell)
         got = sorted(int(x) for x in v._nodes_in_view)
         if got != self.rows_of[vn]:
             raise AssertionError("view %s denotes %s, specification says %s" % (vn, got, self.rows_of[vn]))
@@ -345,6 +366,8 @@ def main():
                     if after != before:
                         out["mismatch"].append({"kind": "refused_but_changed", "path": st["path"], "label": lab,
                                                 "differs": [k for k in before if before[k] != after.get(k)]})
+    for mm in out["mismatch"]:
+        mm["container"] = model.get("container", "cell")
     json.dump(out, open(sys.argv[2], "w"), default=str)
 
 
